@@ -21,6 +21,7 @@ if COVERAGE:
     TARGET = os.path.join(BUILD, 'cov')
     os.environ.setdefault('LLVM_PROFILE_FILE', os.path.join(BUILD, 'cov', 'prof', 'rbp-%8m.profraw'))
 BIN = os.path.join(TARGET, 'debug', 'rusty-blockparser')
+BIN_RELEASE = os.path.join(TARGET, 'release', 'rusty-blockparser')      # what `cargo build --release` / `cargo install` ship
 WORKROOT = os.path.join(VERIF, '.work')
 SPEC = os.path.join(VERIF, 'spec')
 TLA_JAR = '/opt/veriftools/tla/tla2tools.jar:/opt/veriftools/tla/CommunityModules-deps.jar'
@@ -54,6 +55,12 @@ def build():
                            stdout=subprocess.PIPE, stderr=subprocess.STDOUT, text=True, timeout=900)
         if r.returncode != 0:
             raise ToolError('cargo build failed:\n' + r.stdout[-4000:])
+        if not COVERAGE and os.environ.get('RBP_VERIF_NO_AMBIENT') is None:
+            # the release profile as well (optimised, no debug assertions, no overflow checks): the build profile is no input
+            r = subprocess.run(['cargo', 'build', '--release', '--offline', '--quiet'], cwd=REPO, env=env,
+                               stdout=subprocess.PIPE, stderr=subprocess.STDOUT, text=True, timeout=1800)
+            if r.returncode != 0:
+                raise ToolError('cargo build --release failed:\n' + r.stdout[-4000:])
         # private copy so that a concurrent rebuild cannot swap the file under a running check
     _built = True
     return BIN
@@ -133,6 +140,49 @@ def read_events(path):
     return ev
 
 
+def _run_on_pty(args, env, cwd, preexec, timeout, ids):
+    """standard output is a terminal (raw mode, so that the line discipline translates nothing); stderr stays a pipe"""
+    import pty
+    import termios
+    import tty
+    master, slave = pty.openpty()
+    try:
+        tty.setraw(slave)
+        attrs = termios.tcgetattr(slave)
+        attrs[1] &= ~termios.OPOST
+        termios.tcsetattr(slave, termios.TCSANOW, attrs)
+        os.set_inheritable(slave, True)
+        chunks = []
+
+        def pump():
+            while True:
+                try:
+                    b = os.read(master, 65536)
+                except OSError:
+                    break
+                if not b:
+                    break
+                chunks.append(b)
+        p = subprocess.Popen(args, env=env, cwd=cwd, stdout=slave, stderr=subprocess.PIPE, stdin=subprocess.DEVNULL, preexec_fn=preexec, **ids)
+        os.close(slave)
+        slave = -1
+        t = threading.Thread(target=pump, daemon=True)
+        t.start()
+        try:
+            _, err = p.communicate(timeout=timeout)
+        except subprocess.TimeoutExpired:
+            p.kill()
+            _, err = p.communicate()
+            t.join(5)
+            raise subprocess.TimeoutExpired(args, timeout, output=b''.join(chunks), stderr=err)
+        t.join(10)
+        return p.returncode, b''.join(chunks), err
+    finally:
+        if slave >= 0:
+            os.close(slave)
+        os.close(master)
+
+
 NOBODY = 54321          # a uid/gid without passwd entry
 _switch = None
 
@@ -174,7 +224,7 @@ def _open_up(root):
 
 def run_parser(datadir, cb, dump=None, coin=None, start=None, end=None, verify=False, env=None, trace=None,
                fsize=None, nofile=None, timeout=60, threads=None, verbose=0, read_files=True, extra_args=(), mkdump=True,
-               abort_at=None, skip=None):
+               abort_at=None, skip=None, release=None, pty=None, aslimit=None):
     """run the hooked binary; cb in csvdump|unspentcsvdump|balances|simplestats|opreturn.
     Ambient variation: options that must not influence any result (verbosity, size of the thread pool) are varied from run
     to run unless the caller fixes them, so that every check also exercises them."""
@@ -199,7 +249,12 @@ def run_parser(datadir, cb, dump=None, coin=None, start=None, end=None, verify=F
             dd_arg, dump_arg = os.path.relpath(str(datadir), cwd), os.path.relpath(dump, cwd)
         else:
             cwd = None
-    args = [BIN, '-d', dd_arg]
+    binary = BIN
+    if release is None:
+        release = os.environ.get('RBP_VERIF_NO_AMBIENT') is None and amb % 3 == 1 and abort_at is None
+    if release and not COVERAGE and os.path.exists(BIN_RELEASE):
+        binary = BIN_RELEASE
+    args = [binary, '-d', dd_arg]
     if coin:
         args += ['-c', coin]
     if start is not None:
@@ -249,14 +304,20 @@ def run_parser(datadir, cb, dump=None, coin=None, start=None, end=None, verify=F
             resource.setrlimit(resource.RLIMIT_FSIZE, (fsize, fsize))
         if nofile is not None:
             resource.setrlimit(resource.RLIMIT_NOFILE, (nofile, nofile))
+        if aslimit is not None:
+            resource.setrlimit(resource.RLIMIT_AS, (aslimit, aslimit))
         resource.setrlimit(resource.RLIMIT_CORE, (0, 0))
     t0 = time.time()
     for attempt in (0, 1):
         timed_out = False
         try:
             # preexec_fn forces fork(); without it Python can use vfork/posix_spawn, which matters when the parent is large
-            need_pre = fsize is not None or nofile is not None or abort_at is not None
+            need_pre = fsize is not None or nofile is not None or abort_at is not None or aslimit is not None
             to_file = None
+            use_pty = pty if pty is not None else (os.environ.get('RBP_VERIF_NO_AMBIENT') is None and amb % 13 == 6 and fsize is None and nofile is None)
+            if use_pty:
+                rc, out, err = _run_on_pty(args, e, cwd, pre if need_pre else None, timeout, ids)
+                break
             if os.environ.get('RBP_VERIF_NO_AMBIENT') is None and amb % 5 == 2 and fsize is None:
                 # (not under a file size limit: the limit would apply to this file as well)
                 # standard output is a regular file instead of a pipe (block buffering instead of none changes nothing)
